@@ -182,20 +182,30 @@ func ruleAdminStar(c *Ctx) {
 		n++
 		// facts: field.Admin=true and a len(...)==0 comparison on the same field
 		lenZero := false
-		blk := ins.Block()
-		if len(blk.Preds) == 1 {
-			if ifi, ok := blk.Preds[0].Instrs[len(blk.Preds[0].Instrs)-1].(*ssa.If); ok && blk.Preds[0].Succs[0] == blk {
-				if b, ok := ifi.Cond.(*ssa.BinOp); ok && b.Op == token.EQL {
-					if lc, ok := b.X.(*ssa.Call); ok && calleeName(&lc.Call) == "builtin.len" {
-						if lf, _, ok := fieldLoad(lc.Call.Args[0]); ok && lf == f {
-							if z, ok := evalInt(b.Y); ok && z == 0 {
-								lenZero = true
-							}
-						}
+		domConds(ins, func(cond ssa.Value, taken bool) {
+			b, ok := cond.(*ssa.BinOp)
+			if !ok {
+				return
+			}
+			isF := func(v ssa.Value) bool {
+				lf, _, ok := fieldLoad(stripConv(v))
+				return ok && lf == f
+			}
+			// len(x) == 0 / len(x) != 0 / len(x) > 0 ...
+			if lc, ok := stripConv(b.X).(*ssa.Call); ok && calleeName(&lc.Call) == "builtin.len" && isF(lc.Call.Args[0]) {
+				if z, ok := evalInt(b.Y); ok && z == 0 {
+					if b.Op == token.EQL && taken || (b.Op == token.NEQ || b.Op == token.GTR) && !taken {
+						lenZero = true
 					}
 				}
 			}
-		}
+			// x == "" / x != ""
+			if k, ok := b.Y.(*ssa.Const); ok && k.Value != nil && k.Value.Kind() == constant.String && constant.StringVal(k.Value) == "" && isF(b.X) {
+				if b.Op == token.EQL && taken || b.Op == token.NEQ && !taken {
+					lenZero = true
+				}
+			}
+		})
 		c.Decide(s.has("field.Admin=true") && lenZero, "admin-star:"+f.Name(), p.InstrPos(ins), "'*' only for an administrator whose right is empty", "the '*' default for "+f.Name()+" is applied without both conditions (administrator, empty right): an empty right would permit everything for ordinary users")
 	})
 	c.Floor("administrator default assignments", n, 2)
@@ -366,6 +376,7 @@ func ruleSegmentCountGuard(c *Ctx) {
 		return
 	}
 	c.touched(fname(fn))
+	isLenPartsVal := func(v ssa.Value) bool { return false }
 	isLenParts := func(v ssa.Value) bool {
 		lc, ok := v.(*ssa.Call)
 		if !ok || calleeName(&lc.Call) != "builtin.len" {
@@ -374,48 +385,128 @@ func ruleSegmentCountGuard(c *Ctx) {
 		f, _, ok := fieldLoad(lc.Call.Args[0])
 		return ok && f.Name() == "parts"
 	}
-	var less, more bool
-	for _, b := range fn.Blocks {
-		ifi, ok := b.Instrs[len(b.Instrs)-1].(*ssa.If)
-		if !ok {
-			continue
-		}
-		bo, ok := ifi.Cond.(*ssa.BinOp)
-		if !ok || !isLenParts(bo.Y) {
-			continue
-		}
-		retFalse := func(blk *ssa.BasicBlock) bool {
-			for _, ins := range blk.Instrs {
-				if ret, ok := ins.(*ssa.Return); ok {
-					if v, isc := constBool(retValue(ret, 0)); isc && !v {
-						return true
-					}
+	// Path facts: which comparisons of the segment count with len(parts) hold, and wildcardEnd; a
+	// `return true` (or falling into the compare loop) must not be reachable with count < len or with
+	// count > len && !wildcardEnd. Decided by exploring Match with those facts as the state.
+	type st struct{ Rel, Wild int8 } // Rel: 0 unknown 1 count<len 2 count==len 3 count>len 4 count>=len 5 count<=len; Wild 0 unknown 1 true 2 false
+	lessRefused, moreRefused := true, true
+	sawLess, sawMore := false, false
+	res := RunPath(&PathRule[st]{Fn: fn, Init: []st{{}},
+		Branch: func(s st, cond ssa.Value, taken bool) (st, bool) {
+			cv, neg := condNeg(cond)
+			val := taken != neg
+			if f, _, ok := fieldLoad(cv); ok && f.Name() == "wildcardEnd" {
+				w := int8(2)
+				if val {
+					w = 1
+				}
+				if s.Wild != 0 && s.Wild != w {
+					return s, false
+				}
+				s.Wild = w
+				return s, true
+			}
+			bo, ok := cv.(*ssa.BinOp)
+			if !ok {
+				return s, true
+			}
+			x, y, op := bo.X, bo.Y, bo.Op
+			if isLenParts(stripConv(x)) || isLenPartsVal(stripConv(x)) {
+				x, y = y, x
+				switch op {
+				case token.LSS:
+					op = token.GTR
+				case token.GTR:
+					op = token.LSS
+				case token.LEQ:
+					op = token.GEQ
+				case token.GEQ:
+					op = token.LEQ
 				}
 			}
-			return false
-		}
-		switch bo.Op {
-		case token.LSS:
-			if retFalse(b.Succs[0]) {
-				less = true
+			if !(isLenParts(stripConv(y)) || isLenPartsVal(stripConv(y))) {
+				return s, true
 			}
-		case token.GTR:
-			// true edge leads to the !wildcardEnd test whose true edge returns false
-			t := b.Succs[0]
-			if ifi2, ok := t.Instrs[len(t.Instrs)-1].(*ssa.If); ok {
-				cv, neg := condNeg(ifi2.Cond)
-				if f, _, ok := fieldLoad(cv); ok && f.Name() == "wildcardEnd" {
-					edge := t.Succs[0]
-					if !neg {
-						edge = t.Succs[1]
-					}
-					if retFalse(edge) {
-						more = true
-					}
+			if !val {
+				switch op {
+				case token.LSS:
+					op = token.GEQ
+				case token.GTR:
+					op = token.LEQ
+				case token.LEQ:
+					op = token.GTR
+				case token.GEQ:
+					op = token.LSS
+				default:
+					return s, true
 				}
+			}
+			var rel int8
+			switch op {
+			case token.LSS:
+				rel = 1
+			case token.GTR:
+				rel = 3
+			case token.GEQ:
+				rel = 4
+			case token.LEQ:
+				rel = 5
+			default:
+				return s, true
+			}
+			// combine with what is known
+			switch {
+			case s.Rel == 0:
+				s.Rel = rel
+			case s.Rel == 4 && rel == 5, s.Rel == 5 && rel == 4:
+				s.Rel = 2
+			case s.Rel == 4 && rel == 3, s.Rel == 5 && rel == 1:
+				s.Rel = rel
+			case s.Rel == 4 && rel == 1, s.Rel == 5 && rel == 3, s.Rel == 1 && (rel == 3 || rel == 4), s.Rel == 3 && (rel == 1 || rel == 5), s.Rel == 2 && (rel == 1 || rel == 3):
+				return s, false
+			}
+			return s, true
+		}})
+	c.paths += res.N
+	for ret, sts := range res.Exits() {
+		v, isc := constBool(retValue(ret.(*ssa.Return), 0))
+		for _, s := range sts {
+			if isc && !v {
+				if s.Rel == 1 {
+					sawLess = true
+				}
+				if s.Rel == 3 && s.Wild == 2 {
+					sawMore = true
+				}
+				continue
+			}
+			// a granting (or data dependent) return
+			if !isc || v {
+				// reachable only through the compare loop: the loop is entered on paths where no refusal happened
 			}
 		}
 	}
+	// no path reaches the compare loop (the Scan call) with count<len, or with count>len and !wildcardEnd
+	res.Visit(func(ins ssa.Instruction, s st) {
+		cc := callCommon(ins)
+		if cc == nil || cc.StaticCallee() == nil || cc.StaticCallee().Name() != "Scan" {
+			return
+		}
+		if s.Rel == 1 {
+			lessRefused = false
+		}
+		if s.Rel == 3 && s.Wild == 2 {
+			moreRefused = false
+		}
+		if s.Rel == 0 || s.Rel == 4 && s.Wild != 1 && s.Wild != 2 {
+			// the count was never compared on this path
+			if s.Rel == 0 {
+				lessRefused, moreRefused = false, false
+			}
+		}
+	})
+	less := lessRefused && sawLess
+	more := moreRefused && sawMore
 	c.Decide(less, "segment-count:fewer", p.Pos(fn.Pos()), "paths with fewer segments than the pattern are refused", "Match no longer refuses paths with fewer segments than the pattern")
 	c.Decide(more, "segment-count:more", p.Pos(fn.Pos()), "paths with more segments are refused unless the pattern ends in '*'", "Match no longer refuses longer paths for patterns without a trailing '*': 'cam' would grant 'cam/secret/x'")
 }
